@@ -464,6 +464,61 @@ pub fn session_snapshot() -> Option<SessionSnap> {
 }
 
 thread_local! {
+    static FS_GATING: RefCell<bool> = RefCell::new(false);
+    static FS_PENDING: RefCell<Vec<(String, Arc<Notify>)>> = RefCell::new(Vec::new());
+}
+
+/// File-system seam. `fs::write` is two system calls: create/truncate, then write. With gating
+/// switched on, a RE-write of an existing file is held between the two (the file is empty
+/// meanwhile) until the harness releases it, so that a reader's view in that window can be explored.
+pub fn set_fs_gating(on: bool) {
+    FS_GATING.with(|g| *g.borrow_mut() = on);
+    FS_PENDING.with(|p| p.borrow_mut().clear());
+}
+
+/// Paths of re-writes currently held after their truncation.
+pub fn fs_pending() -> Vec<String> {
+    FS_PENDING.with(|p| p.borrow().iter().map(|(n, _)| n.clone()).collect())
+}
+
+/// Let the oldest held re-write of `path` go on.
+pub fn fs_release(path: &str) -> bool {
+    FS_PENDING.with(|p| {
+        let mut p = p.borrow_mut();
+        match p.iter().position(|(n, _)| n == path) {
+            Some(i) => {
+                let (_, n) = p.remove(i);
+                n.notify_one();
+                true
+            }
+            None => false,
+        }
+    })
+}
+
+async fn fs_point(path: &str) {
+    if !FS_GATING.with(|g| *g.borrow()) {
+        return;
+    }
+    let n = Arc::new(Notify::new());
+    FS_PENDING.with(|p| p.borrow_mut().push((path.to_string(), n.clone())));
+    n.notified().await;
+}
+
+/// `tokio::fs::write(path, data)` spelled as its two steps, with the seam in between.
+pub async fn write_file_in_two_steps(path: &str, data: &[u8]) -> std::io::Result<()> {
+    use tokio::io::AsyncWriteExt;
+    let existed = std::path::Path::new(path).exists();
+    let mut file = tokio::fs::File::create(path).await?;
+    if existed {
+        fs_point(path).await;
+    }
+    file.write_all(data).await?;
+    file.flush().await?;
+    Ok(())
+}
+
+thread_local! {
     static LISTEN_ADDR: RefCell<Option<std::net::SocketAddr>> = RefCell::new(None);
 }
 
